@@ -26,7 +26,7 @@ _mant = st.floats(1.0, 2.0, exclude_max=True, allow_nan=False)
 def mag(draw, dtype, cap=1e3, regimes=None):
     """non-negative magnitude from an explicit regime table; returns (value, regime)"""
     eps = EPS[dtype]
-    table = regimes or ("zero", "tiny", "eps", "sqrteps", "small", "milli", "one", "large")
+    table = regimes or ("zero", "tiny", "eps", "sqrteps", "mid", "small", "milli", "one", "large")
     r = draw(st.sampled_from(table))
     m = draw(_mant)
     if r == "zero":
@@ -37,6 +37,9 @@ def mag(draw, dtype, cap=1e3, regimes=None):
         v = eps * m * 2.0 ** draw(st.integers(-6, 6))
     elif r == "sqrteps":
         v = math.sqrt(eps) * m * 2.0 ** draw(st.integers(-6, 6))
+    elif r == "mid":
+        # between the eps band (eps * 2^+-6) and the sqrt(eps) band (sqrt(eps) * 2^+-6): 3e-14 .. 2e-10 in float64
+        v = m * 10.0 ** (draw(st.integers(-14, -10)) if dtype == "float64" else draw(st.integers(-6, -5)))
     elif r == "small":
         v = m * 10.0 ** draw(st.integers(-7, -4))
     elif r == "milli":
@@ -78,10 +81,14 @@ def vec3(draw, dtype, cap=1e3, regimes=None):
 @st.composite
 def angle_mag(draw, dtype, maxk=4):
     """rotation angle: regime table + values around k*pi and beyond pi"""
-    r = draw(st.sampled_from(("mag", "mag", "kpi", "wide")))
+    r = draw(st.sampled_from(("mag", "mag", "mag", "kpi", "kpi", "wide", "wide", "nearpi")))
     if r == "mag":
-        v, rr = draw(mag(dtype, cap=3.0, regimes=("zero", "tiny", "eps", "sqrteps", "small", "milli", "one", "one")))
+        # "one" is uniform on 0.05..4: covers (3, pi) and a little beyond pi without piling up on a cap value
+        v, rr = draw(mag(dtype, cap=4.0, regimes=("zero", "tiny", "eps", "sqrteps", "mid", "small", "milli", "one", "one")))
         return v, rr
+    if r == "nearpi":
+        # log-uniform distance below pi: pi - 10^U(-3.3, -0.8)  (the fixed offsets of "kpi" leave (pi - 0.16, pi - 1e-3) empty)
+        return math.pi - 10.0 ** draw(st.floats(-3.3, -0.8)), "nearpi"
     if r == "kpi":
         k = draw(st.integers(1, maxk))
         d = draw(st.sampled_from((0.0, 1e-12, 1e-9, 1e-6, 1e-4, 1e-3))) * draw(st.sampled_from((1.0, -1.0))) * draw(_mant)
@@ -91,7 +98,7 @@ def angle_mag(draw, dtype, maxk=4):
 
 @st.composite
 def sigma_val(draw, dtype, cap=8.0):
-    v, r = draw(mag(dtype, cap=cap, regimes=("zero", "tiny", "eps", "sqrteps", "small", "milli", "one", "one", "large")))
+    v, r = draw(mag(dtype, cap=cap, regimes=("zero", "tiny", "eps", "sqrteps", "mid", "small", "milli", "one", "one", "large")))
     return v * draw(st.sampled_from((1.0, -1.0))), r
 
 
@@ -124,7 +131,8 @@ def unit_quat(draw, dtype):
     sgn = draw(st.sampled_from((1.0, -1.0)))
     if kind == "angle":
         th, r = draw(angle_mag(dtype, maxk=1))
-        th = min(th, math.pi)
+        if th > math.pi:
+            th = max(0.0, 2 * math.pi - th)      # same rotation class seen from the other side (no pile-up at pi)
         q = [math.sin(th / 2) * c for c in d] + [math.cos(th / 2)]
         reg = "ang:" + r
     elif kind == "rand":
